@@ -147,7 +147,7 @@ func checkTransport(t *rapid.T, kind string, tr *http.Transport, cfg *config.Con
 }
 
 func TestC19Structural(t *testing.T) {
-	ln, err := net.Listen("tcp", "127.0.0.1:0")
+	ln, err := hx.Listen("tcp", "127.0.0.1:0")
 	if err != nil {
 		// an environment problem (e.g. no free ephemeral port), not a verdict on fabio
 		t.Skipf("VERIF-INCONCLUSIVE cannot listen: %v", err)
